@@ -23,12 +23,13 @@ var ruleSets = map[string]func(a *Analyzer, r *Results){
 	"c19f":   runC19formula,
 	"c02":    runC02,
 	"c12":    runC12,
+	"c17":    runC17,
 }
 
 // which rule sets each property needs
 var propSets = map[string][]string{
 	"C01": {"ingest", "proof"}, "C03": {"ingest"}, "C04": {"ingest"}, "C05": {"ingest"}, "C07": {"ingest", "proof"}, "C08": {"ingest", "proof"},
-	"C09": {"ingest"}, "C10": {"ingest"}, "C11": {"ingest", "proof"}, "C15": {"ingest"}, "C17": {"ingest"},
+	"C09": {"ingest"}, "C10": {"ingest"}, "C11": {"ingest", "proof"}, "C15": {"ingest"}, "C17": {"ingest", "c17"},
 	"C02": {"c02", "c12"}, "C06": {"c06"}, "C12": {"c12", "c18"}, "C18": {"c18"}, "C19": {"c19f"},
 }
 
